@@ -155,6 +155,12 @@ def strace_consistent(events, muts, ignore=lambda p: False):
         k = {"h5create": "open"}.get(e["kind"], e["kind"])
         if k in ("open", "remove", "rename", "mkdir", "rmdir") and not ignore(e["path"]):
             b[(k, e["path"])] += 1
+    # HDF5 files are written by a C library that may open the file more than once per creation:
+    # the layer has one coarse h5create/h5close event pair per file generation, so only presence counts
+    h5 = {p for (k, p) in b if p.endswith((".hdf5", ".h5")) and k == "open"}
+    for key in list(a):
+        if key[1] in h5 and key[0] == "open":
+            a[key] = min(a[key], b[key])
     missing = a - b       # syscalls the layer did not see  -> crash-point space incomplete
     return (not missing), [list(k) + [v] for k, v in missing.items()][:10]
 
